@@ -199,7 +199,7 @@ func c14Scenario(req, term string, bound int) *Scenario {
 		return fmt.Sprintf("requested(handled/term-issued/closed)=%v closed=%d handled=%v blockedlib=%d", st.reqAt, closed, st.handled, len(s.BlockedLib()))
 	}
 	return &Scenario{Name: fmt.Sprintf("closenotify/%s/%s", req, term), Body: body, Check: check, Outcome: outcome, Bound: bound,
-		Split: false}
+		Split: false, Weight: map[bool]int{true: 10, false: 0}[req == "both"] + map[bool]int{true: 5, false: 0}[term == "localclose"] + map[bool]int{true: 2, false: 0}[req == "thread"]}
 }
 
 // c14Watchdog: sm.Client with the watchdog on; the peer answers the CER and then closes
